@@ -79,6 +79,7 @@ class Exec(HeapMixin, ExprMixin, CallMixin, StmtMixin):
         self.qguards = []
         self.qvars = []
         self.dec_ids = set()
+        self.laws = []               # enumeration laws of this path (for the `origin` proof device)
         self.class_facts = False     # emit `class_of(x) <: declared class` typing facts (only needed for isinstance)
         self._fact_ids = set()
         self.obs = []
@@ -871,6 +872,32 @@ def _h_was(eng, old, x):
     return eng.with_state_force(x, old.st)
 
 
+def _h_origin(eng, lst, i):
+    """Proof device: the loop-variable values (outermost first) that produced element i of a list built by an
+    accumulation loop / comprehension of the verified function (the enumeration law's source witnesses)."""
+    arrs = eng.lel_arrays(lst)
+    idx = eng.arith_term(i)
+    for law in reversed(eng.laws):
+        for a in arrs:
+            sa = z3.simplify(a)
+            if any(sa.eq(z3.simplify(t)) or a.eq(t) for t in law['terms']):
+                base = law['base']
+                return VTuple([VInt(s(idx - base)) for s in law['srcs']])
+    raise Unsupported('origin(): the list was not built by an enumeration law of this function')
+
+
+def _h_by_lemma(eng, fn, *args):
+    """Instance of a lemma that is discharged separately for all values (it must be registered with lemma())."""
+    if not (isinstance(fn, VFunc) and fn.kind == 'specfn'):
+        raise Unsupported('by_lemma: first argument must be a lemma predicate')
+    if not any(l['fn'] is fn.fn for l in eng.reg.lemmas):
+        raise Unsupported(f'by_lemma: {fn.fn.__name__} is not a registered lemma')
+    r = eng.call_specfn(fn, list(args), {})
+    eng.fact(eng.truth(r))
+    eng.used_assumption(f'lemma {fn.fn.__name__} (discharged as its own obligation)')
+    return VBool(True)
+
+
 def _h_typeof(eng, x):
     return eng.type_of_value(x)
 
@@ -885,5 +912,5 @@ def _h_is_none(eng, x):
 
 SPEC_HELPERS = dict(implies=_h_implies, iff=_h_iff, index_of=_h_index_of, order_of=_h_order_of, key_at=_h_key_at,
                     is_fresh=_h_is_fresh, same_elems=_h_same_elems, same_dict=_h_same_dict, typeof=_h_typeof, same=_h_same,
-                    same_obj=_h_same, now=_h_now, was=_h_was,
+                    same_obj=_h_same, now=_h_now, was=_h_was, origin=_h_origin, by_lemma=_h_by_lemma,
                     is_none=_h_is_none)
